@@ -136,7 +136,7 @@ def impl(case):
     from pymatgen.core import Structure
     rot = synth.rotation(random.Random(case['rseed'])) if case['rot'] else None
     c = np.array(case['coords'], dtype=float) / DEN
-    traj = synth.make_traj(case['m'], case['species'], c, rot=rot)
+    traj = synth.make_traj(case['m'], case['species'], c, rot=rot, images=synth.image_seed(case))
     lat = traj.get_lattice()
     # the site structure may come in a slightly different cell than the simulation (same fractional coordinates)
     from pymatgen.core import Lattice
